@@ -150,8 +150,11 @@ pub fn on_is_running(flag: &AtomicBool) {
         tt_snapshot_at_cut();
     }
     let (lo, hi) = (FORK_FROM.load(Ordering::Relaxed), FORK_TO.load(Ordering::Relaxed));
-    if lo != 0 && n >= lo && n <= hi && FORK_CHILD.load(Ordering::Relaxed) == 0 {
-        fork_here(flag, n);
+    if lo != 0 && n >= lo && n <= hi && FORK_CHILD.load(Ordering::Relaxed) == 0 && !FORK_AT_CLOCK.load(Ordering::Relaxed) {
+        if fork_here(n) {
+            flag.store(false, Ordering::Relaxed);
+            tt_snapshot_at_cut();
+        }
     }
 }
 
@@ -176,14 +179,14 @@ static FORK_WRITES_AT_CUT: AtomicU64 = AtomicU64::new(0);
 static FORK_DONE: AtomicU64 = AtomicU64::new(0);
 static FORK_FAILED: Mutex<Vec<u64>> = Mutex::new(Vec::new());
 
-fn fork_here(flag: &AtomicBool, n: u64) {
+/// Forks; returns true in the child (which is the process that gets interrupted here).
+fn fork_here(n: u64) -> bool {
     let pid = unsafe { fork() };
     if pid == 0 {
         FORK_CHILD.store(n, Ordering::Relaxed);
         let seen = TT_WRITES.lock().map(|w| w.len()).unwrap_or(0);
         FORK_WRITES_AT_CUT.store(seen as u64, Ordering::Relaxed);
-        flag.store(false, Ordering::Relaxed);
-        tt_snapshot_at_cut();
+        return true;
     } else if pid > 0 {
         let mut status: i32 = 0;
         unsafe { waitpid(pid, &mut status, 0) };
@@ -195,13 +198,20 @@ fn fork_here(flag: &AtomicBool, n: u64) {
     } else {
         FORK_ERRORS.fetch_add(1, Ordering::Relaxed);
     }
+    false
 }
 
 static FORK_ERRORS: AtomicU64 = AtomicU64::new(0);
+/// false: fork at flag polls (child gets a stop); true: fork at limit checks (child's clock expires)
+static FORK_AT_CLOCK: AtomicBool = AtomicBool::new(false);
 
 /// number of polls at which fork() itself failed (the sweep is incomplete then)
 pub fn fork_errors() -> u64 {
     FORK_ERRORS.load(Ordering::Relaxed)
+}
+
+pub fn fork_at_clock(on: bool) {
+    FORK_AT_CLOCK.store(on, Ordering::Relaxed);
 }
 
 /// Arms forking for the polls lo..=hi of the next search (0, 0 disarms).
@@ -264,6 +274,13 @@ pub fn virtual_start(start: Instant) -> Instant {
         return start;
     }
     let n = CLOCK_CALLS.fetch_add(1, Ordering::Relaxed) + 1;
+    let (lo, hi) = (FORK_FROM.load(Ordering::Relaxed), FORK_TO.load(Ordering::Relaxed));
+    if lo != 0 && n >= lo && n <= hi && FORK_CHILD.load(Ordering::Relaxed) == 0 && FORK_AT_CLOCK.load(Ordering::Relaxed) {
+        if fork_here(n) {
+            // in the child every time limit expires at this very check
+            CLOCK_FIRE_AT.store(n, Ordering::Relaxed);
+        }
+    }
     let k = CLOCK_FIRE_AT.load(Ordering::Relaxed);
     if k != 0 && n >= k {
         if !CLOCK_FIRED.swap(true, Ordering::Relaxed) {
